@@ -413,3 +413,19 @@ def reaching_assign(node, name):
             break
         prev = p
     return None
+
+
+def copy_tree(n):
+    """deep copy of an AST subtree that does not follow the `_parent` back links (which would drag the whole module along)"""
+    if isinstance(n, ast.AST):
+        new = n.__class__()
+        for fld in n._fields:
+            if hasattr(n, fld):
+                setattr(new, fld, copy_tree(getattr(n, fld)))
+        for a in ("lineno", "col_offset", "end_lineno", "end_col_offset"):
+            if hasattr(n, a):
+                setattr(new, a, getattr(n, a))
+        return new
+    if isinstance(n, list):
+        return [copy_tree(x) for x in n]
+    return n
